@@ -15,6 +15,8 @@ def run(ctx):
         ("one VRF, two sessions, add-path", {"Peers": {"p1", "p2"}, "Bundles": {"b1", "b2"}, "Stages": {"post"}, "Cfgs": {"both"}}, PFX1, 99),
         ("both views", {"Peers": {"p1"}, "Bundles": {"b1", "b2"}, "Stages": {"pre", "post"}, "Cfgs": {"both", "preOnly", "postOnly"}}, PFX2, 99),
         ("IPv6 session, add-path, both views", {"Peers": {"p4"}, "Bundles": {"b1", "b3"}, "Stages": {"pre", "post"}, "Cfgs": {"both"}}, PFX1, 99),
+        # three sessions up at the same time, then session ends and reconnects (clean-up loops over several sessions)
+        ("three sessions, one bundle", {"Peers": {"p1", "p2", "p3"}, "Bundles": {"b1"}, "Stages": {"post"}, "Cfgs": {"both"}}, PFX1, 99),
     ]
     if big:
         fams.append(("three sessions, two VRFs", {"Peers": {"p1", "p2", "p3"}, "Bundles": {"b1", "b2"}, "Stages": {"post"},
